@@ -40,6 +40,53 @@ def install_format_stub():
     core._PATCH_REGISTRATIONS[format] = _format_stub
 
 
+def install_attr_patches():
+    """CrossHair's setattr()/getattr() patches call the real builtins with tracing switched OFF, so a descriptor or
+    property reached through them (pyrtma's validators use setattr(obj, private_name, value); _from_dict uses both)
+    would handle symbolic values untraced.  These versions realise a symbolic name like the originals do, then perform
+    the attribute access with tracing on."""
+    import crosshair.core as core
+    from crosshair.libimpl import builtinslib as BL
+    from crosshair.tracers import NoTracing
+    from crosshair.core import realize
+
+    _MISSING = object()
+
+    def _setattr(obj, name, value):
+        with NoTracing():
+            if isinstance(obj, BL.SymbolicValue):
+                obj = realize(obj)
+            if type(name) is BL.AnySymbolicStr:
+                name = realize(name)
+        return type(obj).__setattr__(obj, name, value)
+
+    def _getattr(obj, name, default=_MISSING):
+        with NoTracing():
+            if isinstance(name, BL.AnySymbolicStr):
+                name = realize(name)
+            symbolic_obj = isinstance(obj, BL.SymbolicValue)
+        if symbolic_obj:
+            with NoTracing():
+                return getattr(obj, name) if default is _MISSING else getattr(obj, name, default)
+        try:
+            return type(obj).__getattribute__(obj, name)
+        except AttributeError:
+            ga = getattr(type(obj), "__getattr__", None)
+            if ga is not None:
+                try:
+                    return ga(obj, name)
+                except AttributeError:
+                    if default is _MISSING:
+                        raise
+                    return default
+            if default is _MISSING:
+                raise
+            return default
+
+    core._PATCH_REGISTRATIONS[setattr] = _setattr
+    core._PATCH_REGISTRATIONS[getattr] = _getattr
+
+
 def force_ieee():
     from crosshair.libimpl import builtinslib as BL
 
@@ -79,6 +126,7 @@ def analyze(modname, fname, cond_timeout, path_timeout, flags=()):
             install_format_stub()
         if "ieee" in flags:
             force_ieee()
+        install_attr_patches()
         time_solver()
         _installed = True
     c0, s0 = _solver["calls"], _solver["s"]
